@@ -27,17 +27,17 @@ func (a *turnAttr) Stats(id key.TargetID) *info.Stats {
 	mods.Props.Set(prop.SPDBase, s)
 	return info.NewStats(id, &attr, mods)
 }
-func (a *turnAttr) Stance(key.TargetID) float64           { return 0 }
-func (a *turnAttr) MaxStance(key.TargetID) float64        { return 0 }
-func (a *turnAttr) Energy(key.TargetID) float64           { return 0 }
-func (a *turnAttr) MaxEnergy(key.TargetID) float64        { return 0 }
-func (a *turnAttr) EnergyRatio(key.TargetID) float64      { return 0 }
-func (a *turnAttr) HPRatio(key.TargetID) float64          { return 1 }
-func (a *turnAttr) IsAlive(key.TargetID) bool             { return true }
-func (a *turnAttr) State(key.TargetID) info.TargetState   { return info.Alive }
-func (a *turnAttr) FullEnergy(key.TargetID) bool          { return false }
+func (a *turnAttr) Stance(key.TargetID) float64               { return 0 }
+func (a *turnAttr) MaxStance(key.TargetID) float64            { return 0 }
+func (a *turnAttr) Energy(key.TargetID) float64               { return 0 }
+func (a *turnAttr) MaxEnergy(key.TargetID) float64            { return 0 }
+func (a *turnAttr) EnergyRatio(key.TargetID) float64          { return 0 }
+func (a *turnAttr) HPRatio(key.TargetID) float64              { return 1 }
+func (a *turnAttr) IsAlive(key.TargetID) bool                 { return true }
+func (a *turnAttr) State(key.TargetID) info.TargetState       { return info.Alive }
+func (a *turnAttr) FullEnergy(key.TargetID) bool              { return false }
 func (a *turnAttr) LastAttacker(id key.TargetID) key.TargetID { return id }
-func (a *turnAttr) SP() int                               { return 3 }
+func (a *turnAttr) SP() int                                   { return 3 }
 
 func statusTerm(st []event.TurnStatus) term.T {
 	out := []term.T{}
